@@ -355,6 +355,19 @@ func (x *Exec) doBinOp(fr *Frame, i *ssa.BinOp, bc Term, st State, site string) 
 				return VT(T(SInt, app("wrap64", app("*", a.S, b.S))), rt)
 			}
 		}
+	case token.SHL:
+		// uint8/uint16 << int: a negative count panics; a count >= the width gives 0 (Go spec)
+		if (a.Sort == SBV8 || a.Sort == SBV16) && b.Sort == SInt {
+			bits := 8
+			if a.Sort == SBV16 {
+				bits = 16
+			}
+			if _, isConst := i.Y.(*ssa.Const); !isConst {
+				x.safety(fr, "shift", "shift count is not negative", i.Pos(), bc, T(SBool, app("<=", "0", b.S)))
+			}
+			sh := fmt.Sprintf("(ite (>= %s %d) %s (bvshl %s ((_ int2bv %d) %s)))", b.S, bits, BVLit(bits, 0).S, a.S, bits, b.S)
+			return VT(x.C.Def("shl", T(a.Sort, sh)), rt)
+		}
 	case token.AND, token.OR, token.XOR, token.AND_NOT:
 		if a.Sort == SBV8 || a.Sort == SBV16 {
 			switch i.Op {
@@ -594,6 +607,12 @@ func (x *Exec) doConvert(fr *Frame, i *ssa.Convert, st State, site string) Value
 			}
 			return VT(BVLit(bits, c.Uint64()), to)
 		}
+		// non-constant int -> uint8/uint16: Go truncates to the low bits (two's complement), which is int2bv
+		bits := 8
+		if ts == SBV16 {
+			bits = 16
+		}
+		return VT(x.C.Def("i2bv", T(ts, fmt.Sprintf("((_ int2bv %d) %s)", bits, t.S))), to)
 	}
 	x.havoc(site + ": conversion " + from.String() + " -> " + to.String())
 	fv := x.freshValue(to, "conv")
